@@ -80,6 +80,61 @@ def run(chk: Check, proj: Project) -> None:
     s3(chk, proj, w)
     s4(chk, proj, w)
     s5(chk, proj, w)
+    s6(chk, proj, w)
+
+
+def s6(chk: Check, proj: Project, w) -> None:
+    chk.rule("S6", "the parent relation and the attribute hand-over have no gaps: the isolated copy forwards the component key whenever the context has it (no other condition); the root-attribute step returns the HTML parser's result on every path; the attributes of the child being processed are looked up afresh in every queue iteration")
+    cm, cf = proj.func("context", "make_isolated_context_copy")
+    chk.analysed(fkey(cm, cf))
+    st = [x for x in stmts(cf) if isinstance(x, ast.Assign) and isinstance(x.targets[0], ast.Subscript) and norm(x.targets[0].slice) == "_COMPONENT_CONTEXT_KEY"]
+    if len(st) != 1:
+        chk.undecided("S6", "context:make_isolated_context_copy:component-key-forwarded", cm.loc(cf), f"{len(st)} stores of the component key")
+    else:
+        atoms = cond_atoms(st[0])
+        extra = [(t, pol) for t, pol in atoms if not (pol and t.startswith("_COMPONENT_CONTEXT_KEY in "))]
+        ok = not extra
+        chk.ob("S6", "context:make_isolated_context_copy:component-key-forwarded", cm.loc(st[0]), ok,
+               "the component key is copied whenever the source context has it" if ok else
+               f"the component key is forwarded only if additionally `{'not ' if not extra[0][1] else ''}{extra[0][0]}`: an isolated / `only` component rendered under that condition (e.g. inside a {{% for %}} loop) does not see its parent, is treated as a root and rendered recursively on the spot - RecursionError at ~50 nesting levels, and no inherited root attributes")
+    dm, df = proj.func("dependencies", "set_component_attrs_for_js_and_css")
+    chk.analysed(fkey(dm, df))
+    pc = [c for c in calls(df, "set_html_attributes")]
+    rets = [r for r in stmts(df) if isinstance(r, ast.Return)]
+    okr = len(pc) == 1 and len(rets) == 1 and rets[0] in df.body and enclosing_stmt(pc[0]) in df.body
+    if okr and isinstance(rets[0].value, ast.Tuple) and len(rets[0].value.elts) == 2 and isinstance(enclosing_stmt(pc[0]), ast.Assign) and isinstance(enclosing_stmt(pc[0]).targets[0], ast.Tuple):
+        okr = norm(rets[0].value.elts[1]) == norm(enclosing_stmt(pc[0]).targets[0].elts[1])
+    chk.ob("S6", "dependencies:set_component_attrs_for_js_and_css:always-through-the-html-parser", dm.loc(rets[0]) if rets else dm.loc(df), okr,
+           "one return; the child map it returns is the second result of set_html_attributes, which is called unconditionally" if okr else
+           "the function can return without (or with something other than) the HTML parser's child map: a shortcut that derives the children from a regex match reports only part of the nested components, so the others' root elements lack the enclosing component's id")
+    pm, pf = proj.func("perfutil.component", "component_post_render")
+    loopfn = None
+    for c in calls(pf):
+        tg = w.cg.resolve_callee(pm, c, c.func)
+        if tg is not None and isinstance(tg[1], ast.FunctionDef) and any(isinstance(x, ast.While) for x in ast.walk(tg[1])):
+            loopfn = tg
+    if loopfn is None and any(isinstance(x, ast.While) for x in ast.walk(pf)):
+        loopfn = (pm, pf)
+    if loopfn is None:
+        raise AnalysisError("queue loop not found")
+    lm, lf = loopfn
+    chk.analysed(fkey(lm, lf))
+    loop = next(x for x in ast.walk(lf) if isinstance(x, ast.While))
+    pops = [x for x in ast.walk(loop) if isinstance(x, ast.Assign) and isinstance(x.value, ast.Call) and isinstance(x.value.func, ast.Attribute) and x.value.func.attr in ("pop", "get") and norm(x.value.func.value) == "child_component_attrs"]
+    if not pops:
+        # conditional form: any store from child_component_attrs
+        pops = [x for x in ast.walk(loop) if isinstance(x, ast.Assign) and "child_component_attrs" in norm(x.value)]
+    okp = False
+    whyp = "no lookup of child_component_attrs in the loop"
+    if pops:
+        var = norm(pops[0].targets[0])
+        uncond = [x for x in pops if x in loop.body]
+        users = [c for c in ast.walk(loop) if isinstance(c, ast.Call) and any(isinstance(a, ast.Name) and a.id == var for a in c.args)]
+        okp = bool(uncond) and all(u.lineno > uncond[0].lineno for u in users) and len(x_ := [x for x in pops[0].value.args]) == 2
+        whyp = f"`{short(pops[0])}`" + ("" if pops[0] in loop.body else " is conditional")
+    chk.ob("S6", "perfutil.component:queue-loop:child-attributes-looked-up-every-iteration", lm.loc(pops[0]) if pops else lm.loc(loop), okp,
+           "the attributes of the component being processed are popped (with a default) unconditionally at the start of each iteration" if okp else
+           f"the attributes handed to the renderer are not re-read unconditionally in each iteration ({whyp}): a component for which the parent recorded nothing (e.g. one the HTML parser could not see) inherits the attributes of the component processed just before it, so its roots carry a foreign id")
 
 
 _FIXTURE_DEEPCOPY = "import copy\ndef snap(ctx_dict):\n    return copy.deepcopy(ctx_dict['forloop'])\n"
